@@ -21,7 +21,8 @@ from .c17 import o_compatible, o_convert
 GEO = dict(cls="uniform", dims=[3, 4], order="F", reversed=False, increase=[True, True], location="CELLS")
 GEO_RELAYOUT = dict(GEO, order="C", reversed=True, increase=[True, False])
 GEO_OTHER = dict(GEO, dims=[4, 4])
-GRIDS = {"G": GEO, "Gr": GEO_RELAYOUT, "X": GEO_OTHER}
+GEO_FLIP = dict(GEO, increase=[True, False])  # same data shape as GEO, other orientation
+GRIDS = {"G": GEO, "Gr": GEO_RELAYOUT, "Gf": GEO_FLIP, "X": GEO_OTHER}
 
 
 def grid_of(code):
@@ -47,6 +48,9 @@ def mask_of(code, gcode):
         return None
     if gcode in (None, "N0"):
         return None
+    if code == "rawA":
+        # the *array* of mask A as laid out for grid G, reused as it is on another layout
+        return located_mask("G", 0.0)
     return located_mask(gcode, 0.0 if code == "A" else 1.0)
 
 
@@ -124,6 +128,9 @@ def mask_accept(prod, cons, prod_grid, cons_grid):
         return True
     if cons == "NONE":
         return prod == "NONE"
+    if cons == "rawA":
+        # equal to the producer's mask only if it masks the same *locations*
+        return prod == "A" and (cons_grid or prod_grid) in ("G",) and True
     return prod in ("A", "B") and prod == cons
 
 
@@ -147,12 +154,12 @@ class C07(Property):
 
     def gen(self, rnd, i, tier):
         def side(is_prod):
-            g = rnd.choice([None, "G", "G", "Gr", "X", "N0"])
+            g = rnd.choice([None, "G", "G", "Gr", "Gf", "X", "N0"])
             return dict(
                 time=rnd.random() < 0.7,
                 grid=g,
                 units=rnd.choice(["m", "km", "s"] if is_prod else ["m", "km", "s", None, None]),
-                mask=rnd.choice(["FLEX", "FLEX", "NONE", "A", "B"] if is_prod else ["FLEX", "FLEX", "NONE", "A", "B", None]),
+                mask=rnd.choice(["FLEX", "FLEX", "NONE", "A", "B"] if is_prod else ["FLEX", "FLEX", "NONE", "A", "B", "rawA", None]),
                 foo=rnd.choice(["absent", "absent", "value", "fill"]),
             )
 
@@ -163,11 +170,11 @@ class C07(Property):
             # bias toward compatible combinations so that successful exchanges are explored as often as rejections
             for c in cons:
                 if rnd.random() < 0.8:
-                    c["grid"] = rnd.choice([None, p["grid"], "Gr" if p["grid"] == "G" else p["grid"]]) if p["grid"] else rnd.choice(["G", "Gr", "N0"])
+                    c["grid"] = rnd.choice([None, p["grid"], "Gr" if p["grid"] == "G" else p["grid"], "Gf" if p["grid"] == "G" else p["grid"]]) if p["grid"] else rnd.choice(["G", "Gr", "Gf", "N0"])
                 if rnd.random() < 0.8:
                     c["units"] = rnd.choice([None, "m", "km"]) if p["units"] in ("m", "km") else rnd.choice([None, p["units"]])
                 if rnd.random() < 0.8:
-                    c["mask"] = rnd.choice(["FLEX", None, p["mask"]])
+                    c["mask"] = rnd.choice(["FLEX", None, p["mask"], "rawA" if p["mask"] == "A" else p["mask"]])
         adapter = rnd.choice([None, None, None, "scale", "scale", "v2g", "g2v", "regrid", "sum"])
         if ncons == 2 and adapter not in (None, "scale"):
             adapter = None
@@ -217,7 +224,7 @@ class C07(Property):
                 eff_pgrid = cgrid
             else:
                 eff_pgrid = pgrid
-            if ada in ("v2g", "g2v", "regrid") and (p["mask"] in ("A", "B") or c["mask"] in ("A", "B")):
+            if ada in ("v2g", "g2v", "regrid") and (p["mask"] in ("A", "B") or c["mask"] in ("A", "B", "rawA")):
                 return "unconstrained", None, True
             if eff_pgrid is None and cgrid is None:
                 return ("unconstrained" if unconstrained else "error"), None, unconstrained
@@ -236,13 +243,15 @@ class C07(Property):
             funits = c["units"] or eunits
             # masks (on a grid-less link fixed masks cannot be expressed in this catalogue)
             pm, cm = p["mask"], c["mask"]
-            if (pm in ("A", "B") and (pgrid in (None, "N0"))) or (cm in ("A", "B") and (cgrid in (None, "N0") and pgrid in (None, "N0"))):
+            if (pm in ("A", "B") and (pgrid in (None, "N0"))) or (cm in ("A", "B", "rawA") and (cgrid in (None, "N0") and pgrid in (None, "N0"))):
                 return "unconstrained", None, True
-            if cm in ("A", "B") and cgrid in (None, "N0"):
+            if cm in ("A", "B", "rawA") and (cgrid == "N0" or (cgrid is None and pgrid in (None, "N0"))):
                 return "unconstrained", None, True
+            if cm == "rawA" and (cgrid or pgrid) not in ("G", "Gf"):
+                return "unconstrained", None, True  # raw array of other shape: constructing the Info already fails
             if not mask_accept(pm, cm, pgrid, cgrid):
                 return "error", None, unconstrained
-            fmask = pm if cm in ("FLEX", None) else cm
+            fmask = pm if cm in ("FLEX", None) else ("A" if cm == "rawA" else cm)
             # time
             if not ptime and not c["time"]:
                 return ("unconstrained" if unconstrained else "error"), None, unconstrained
@@ -278,7 +287,11 @@ class C07(Property):
         prod = Src("P", pinfo, payload)
         dsts = []
         for k, c in enumerate(cons):
-            cinfo = fm.Info(time=T0 if c["time"] else None, grid=grid_of(c["grid"]), units=c["units"], mask=mask_of(c["mask"], c["grid"] or p["grid"]), **meta(c, f"C{k}"))
+            try:
+                cinfo = fm.Info(time=T0 if c["time"] else None, grid=grid_of(c["grid"]), units=c["units"], mask=mask_of(c["mask"], c["grid"] or p["grid"]), **meta(c, f"C{k}"))
+            except fm.FinamMetaDataError:
+                out.count("consumer_info_not_constructible")
+                return out
             dsts.append(Dst(f"C{k}", cinfo))
         comps = [prod] + dsts
         composition = fm.Composition([comps[i] for i in spec["order"]], print_log=False, log_level=logging.CRITICAL + 10)
